@@ -330,18 +330,36 @@ def check_iterator(prog, rep):
         key = "size_hint:" + raw
         chosen = []
         undecidable = False
+        split = None
         for sm in summs:
             tv = [_fact_holds(f, bits) for f in sm.facts]
-            if any(v is None for v in tv):
+            data = [f for f, v in zip(sm.facts, tv) if v is None]
+            if data and not all(f[0] in ("lt", "le") and self_index in (strip_refs(f[1]), strip_refs(f[2])) for f in data):
                 undecidable = True
-            elif all(tv):
-                chosen.append(sm)
-        if undecidable or len(chosen) != 1:
+            elif all(v for v in tv if v is not None):
+                chosen.append((sm, data))
+        if not undecidable and len(chosen) == 2 and all(len(d) == 1 for _, d in chosen):
+            # `match total.checked_sub(self.index) { Some(n) => n, None => 0 }` and friends: the two-path spelling of
+            # total.saturating_sub(self.index)
+            zero = [(sm, d[0]) for sm, d in chosen if d[0][0] == "lt" and strip_refs(d[0][2]) == self_index]
+            rest = [(sm, d[0]) for sm, d in chosen if d[0][0] == "le" and strip_refs(d[0][1]) == self_index]
+            if len(zero) == 1 and len(rest) == 1 and strip_refs(zero[0][1][1]) == strip_refs(rest[0][1][2]):
+                total = rest[0][1][2]
+                z, r_ = subst_const(zero[0][0].ret, BPP, bits), subst_const(rest[0][0].ret, BPP, bits)
+                zero_ok = z == ("agg", "tuple", (("const", 0), ("agg", "core::option::Option::Some", (("const", 0),))))
+                diff = ("bin", "Sub", subst_const(total, BPP, bits), self_index)
+                rest_ok = r_[0] == "agg" and r_[1] == "tuple" and len(r_[2]) == 2 and strip_refs(r_[2][0]) == diff and r_[2][1] == ("agg", "core::option::Option::Some", (r_[2][0],))
+                if zero_ok and rest_ok and not zero[0][0].effects and not rest[0][0].effects:
+                    sat = ("call", "core::num::<impl usize>::saturating_sub", (), (total, self_index))
+                    split = ("agg", "tuple", (sat, ("agg", "core::option::Option::Some", (sat,))))
+        if split is None:
+            chosen = [sm for sm, d in chosen if not d]
+        if split is None and (undecidable or len(chosen) != 1):
             rep.fail("R11.3", key, "cannot select the size_hint path for %d bpp (%d candidates)" % (bits, len(chosen)), status="undecided", at=sh.span, fn=sh.path)
             ok_all = False
             continue
-        ret = subst_const(chosen[0].ret, BPP, bits)
-        good = ret[0] == "agg" and ret[1] == "tuple" and len(ret[2]) == 2 and not chosen[0].effects
+        ret = subst_const(split if split is not None else chosen[0].ret, BPP, bits)
+        good = ret[0] == "agg" and ret[1] == "tuple" and len(ret[2]) == 2 and (split is not None or not chosen[0].effects)
         size = ret[2][0] if good else None
         upper = ret[2][1] if good else None
         good = good and upper[0] == "agg" and upper[1].endswith("Option::Some") and upper[2][0] == size
@@ -415,6 +433,13 @@ def check_iterator(prog, rep):
         w = sm.writes()
         seen += [show_eff(e) for e in sm.effects]
         okw = len(w) == 1 and w[0][1] == self_index and w[0][2][0] == "call" and w[0][2][1].endswith("saturating_add") and set(w[0][2][3]) == {self_index, n_param}
+        if not okw and len(w) == 1 and w[0][1] == self_index:
+            # the two-path spelling of the saturating addition (`match index.checked_add(n) { Some(s) => s, None => MAX }`)
+            top = ("const", (1 << 64) - 1)
+            sm_add = [("bin", "Add", self_index, n_param), ("bin", "Add", n_param, self_index)]
+            over = any(fc[0] == "lt" and fc[1] == top and fc[2] in sm_add for fc in sm.facts)
+            fits = any(fc[0] == "le" and fc[2] == top and fc[1] in sm_add for fc in sm.facts)
+            okw = (over and w[0][2][0] == "const" and w[0][2][1] in (top[1], "#%d" % top[1])) or (fits and w[0][2] in sm_add)
         calls = sm.calls()
         okc = len(calls) == 1 and (calls[0][1][1].endswith("Iterator>::next") or calls[0][1][1] == nxt.path) and ptr_root(calls[0][1])[:2] == ("param", 1)
         order = okw and okc and sm.effects.index(w[0]) < sm.effects.index(calls[0])
